@@ -43,7 +43,7 @@ ASSUMPTIONS = [
     'BlockSliceQuery.find_proposal_injection is excluded: it calls a non-existent OperationListListQuery.find_votes after the search returns '
     '(a defect outside this statement).',
 ]
-EXPECTED_PROBES = ['more_than_512_sampling_points', 'tallies_reset_at_stop_block', 'voting_power_sent_as_string', 'two_searches_interleaved', 'coarse_equality', 'chain_extended_between_two_searches', 'none_valued_history', 'search_aborted_by_definitive_failure', 'slice_reused_for_second_search', 'change_at_last_plus_1', 'change_at_head', 'adjacent_changes', 'step_exceeds_range', 'no_change_in_range', 'fault_during_search',
+EXPECTED_PROBES = ['empty_or_inverted_slice', 'more_than_512_sampling_points', 'tallies_reset_at_stop_block', 'voting_power_sent_as_string', 'two_searches_interleaved', 'coarse_equality', 'chain_extended_between_two_searches', 'none_valued_history', 'search_aborted_by_definitive_failure', 'slice_reused_for_second_search', 'change_at_last_plus_1', 'change_at_head', 'adjacent_changes', 'step_exceeds_range', 'no_change_in_range', 'fault_during_search',
                    'chain_grew_during_search']
 
 PKH = 'tz1VSUr8wwNhLAzempoch5d6hLRiTh8Cjcjb'
@@ -150,6 +150,12 @@ def gen(seed, tier):
         scn_out['baker'] = False
         k = rng.choice([1, 2, 5, 30])
         scn_out['grow_between'] = {'levels': k, 'changes': sorted({rng.randint(1, k) for _ in range(rng.choice([1, 1, 2]))})}
+    if kind in ('api:ballots', 'api:upvotes') and last >= 2 and rng.random() < 0.04:
+        # degenerate slices: blocks[N:N+1] searches the empty range (N, N], blocks[N:N] an inverted one; votes sit exactly in block N
+        # and right after the slice, none inside: nothing may be reported (and nothing may blow up)
+        scn_out.update(head=last - rng.choice([0, 1]), changes=[], outside=[last, last + 1], slice_mode='closed', degenerate=True)
+        for k in ('reset_at_stop', 'grow_between', 'interleave'):
+            scn_out.pop(k, None)
     return scn_out
 
 
@@ -444,6 +450,8 @@ def execute(scn, want_log=False):
         bump('tallies_reset_at_stop_block')
     if scn.get('power_as_string') and scn['changes']:
         bump('voting_power_sent_as_string')
+    if scn.get('degenerate'):
+        bump('empty_or_inverted_slice')
     if (head - last) / max(step, 1) > 512:
         bump('more_than_512_sampling_points')
     if sim.stats.get('fault:transient', 0) + sim.stats.get('fault:preval', 0) + sim.stats.get('fault:latency', 0):
